@@ -1990,6 +1990,15 @@ def sig_paren_minus(sig, what, payload):
 F7_WITNESS = {"id": "f7", "chain": ["@@\nvar x expression\n@@\n-foo(x)\n+x*2\n", "@@\nvar y expression\n@@\n-(y)*2\n+mul(y, 2)\n"],
               "src": "package a\n\nfunc f() int {\n\treturn foo(a + b)\n}\n"}
 
+def parses_go(ctx, src):
+    d = ctx.scratch("pg")
+    p = os.path.join(d, "x.go")
+    with open(p, "w") as f:
+        f.write(src)
+    r = subprocess.run([ctx.harness, "parses"], input=p + "\n", stdout=subprocess.PIPE, text=True)
+    shutil.rmtree(d, ignore_errors=True)
+    return r.stdout.strip() == "1"
+
 def canon_files(ctx, paths):
     r = subprocess.run([ctx.harness, "canon"], input="\n".join(paths) + "\n", stdout=subprocess.PIPE, stderr=subprocess.PIPE, text=True)
     return r.stdout.splitlines()
@@ -2061,8 +2070,17 @@ def c09(ctx):
     cases = [c for c in gen_cases(ctx, "c09", 150 if ctx.tier == "quick" else 3000, ctx.seed + 7, golden=False) if c.get("chain")]
     budget = 60 if ctx.tier == "quick" else 1500
     hows = ["flags", "one-file", "list", "stdin", "mixed"]
-    todo = [(c, hows[i % len(hows)]) for i, c in enumerate(cases[:budget])]
+    todo = []
+    for i, c in enumerate(cases[:budget]):
+        if i % 2 == 1:
+            # comment-rich variant of the same file: comment surgery between changes must not break the sequence
+            src = inject_comments(rng, c["src"])
+            if src and parses_go(ctx, src):
+                c = dict(c, src=src)
+        todo.append((c, hows[i % len(hows)]))
     todo.append((dict(F7_WITNESS), "flags"))
+    todo.append(({"id": "f16", "chain": ["@@\nvar f identifier\n@@\n func f(...) {\n-  ...\n }\n", "@@\nvar x expression\n@@\n-x == nil\n+nil == x\n"],
+                  "src": "package a\n\nfunc g() bool { return x == nil }\n\nfunc f() {\n\ta(nil, // c\n\t)\n}\n"}, "flags"))
     # a chain with a failing step
     todo.append(({"id": "failstep", "chain": ["@@\nvar x expression\n@@\n-foo(x)\n+bar(x)\n", "@@\nvar x expression\n@@\n-bar(x)\n+baz.x\n"],
                   "src": "package a\n\nfunc f() {\n\tfoo(g(1))\n}\n"}, "flags"))
